@@ -1,8 +1,9 @@
 (* C11 — property theorems only: each closed by [exact] of a lemma proved in Values/DepsProofs.v. *)
-From Coq Require Import List String Bool.
-From Helm Require Import Values.Tree Values.Schema Values.Scope Values.Deps Values.DepsProofs.
+From Coq Require Import List String Bool ZArith.
+From Helm Require Import Values.Tree Values.Schema Values.Scope Values.Deps Values.DepsProofs Values.ScopeProofs.
 Import ListNotations.
 Local Open Scope string_scope.
+Local Open Scope Z_scope.
 
 (* The flag the code computes (all true; tags; then conditions, last write wins) is the
    specification: the first condition path that resolves to a boolean decides, otherwise the
@@ -19,9 +20,9 @@ Print Assumptions C11_flag_is_spec.
    requirement names (what Metadata.Validate enforces at load time), a requirement record is
    kept iff [enabled_spec], and a chart carrying its name is kept iff one was resolved and
    [enabled_spec]. *)
-Theorem C11_enabled_iff : forall compat c v path c' reqs0,
-  cmdeps c = Some reqs0 ->
+Theorem C11_enabled_iff : forall compat c v path c',
   pde compat c v path = Ok c' ->
+  let reqs0 := mdeps_list c in
   let ks := resolved_kids compat (kids_of compat c) reqs0 in
   let reqs := resolved_reqs reqs0 in
   exists cvals,
@@ -36,9 +37,9 @@ Print Assumptions C11_enabled_iff.
 
 (* Without any assumption on names: a disabled requirement leaves neither a chart nor a record
    under its name, and nothing appears that was not resolved. *)
-Theorem C11_disabled_vanish : forall compat c v path c' reqs0,
-  cmdeps c = Some reqs0 ->
+Theorem C11_disabled_vanish : forall compat c v path c',
   pde compat c v path = Ok c' ->
+  let reqs0 := mdeps_list c in
   let ks := resolved_kids compat (kids_of compat c) reqs0 in
   let reqs := resolved_reqs reqs0 in
   exists cvals,
@@ -60,9 +61,9 @@ Print Assumptions C11_alias_only.
 
 (* The same holds at every depth: each kept subchart is the result of processDependencyEnabled
    on the resolved subchart with the parent's coalesced values and the extended path, ... *)
-Theorem C11_enabled_recursive : forall compat c v path c' reqs0,
-  cmdeps c = Some reqs0 ->
+Theorem C11_enabled_recursive : forall compat c v path c',
   pde compat c v path = Ok c' ->
+  let reqs0 := mdeps_list c in
   let ks := resolved_kids compat (kids_of compat c) reqs0 in
   let reqs := resolved_reqs reqs0 in
   exists cvals,
@@ -81,12 +82,14 @@ Theorem C11_resolved_origin : forall compat c reqs0 ek,
 Proof. exact kids_of_origin. Qed.
 Print Assumptions C11_resolved_origin.
 
-(* Quirk recorded as a theorem: a chart without a dependencies list in Chart.yaml is not
-   descended into (its subcharts' own requirements are never evaluated). *)
-Theorem C11_no_requirements_untouched : forall compat c v path,
-  cmdeps c = None -> pde compat c v path = Ok c.
-Proof. exact no_requirements_untouched. Qed.
-Print Assumptions C11_no_requirements_untouched.
+(* A chart without requirements of its own keeps all its subcharts, and (C11_enabled_recursive)
+   they are processed in turn - the repaired behaviour (fix 20099bc; before it such a chart was
+   not descended into and the conditions and aliases below it were ignored). *)
+Theorem C11_no_requirements_keeps_all : forall compat c v path c',
+  cmdeps c = None -> pde compat c v path = Ok c' ->
+  map cname (cdeps c') = map cname (cdeps c) /\ cmdeps c' = None.
+Proof. exact no_requirements_keeps_all. Qed.
+Print Assumptions C11_no_requirements_keeps_all.
 
 (* A disabled dependency contributes no templates: every rendered template belongs to the chart
    itself or to a chart kept in its dependency list (defaults and schema checks walk the same list). *)
@@ -98,6 +101,90 @@ Theorem C11_templates_from_kept : forall c root pp pv p x,
   \/ (exists d, In d (cdeps c) /\ In (p, x) (rec_all_tpls d false full vals)).
 Proof. exact templates_from_kept. Qed.
 Print Assumptions C11_templates_from_kept.
+
+(* C11_scope, one level of the tree (it applies at every level): what the parent's coalesced
+   values hold under subchart d's name - which is d's .Values - depends only on the section
+   under d's name and on the "global" table of the values handed down; it is unchanged by any
+   change to a sibling's section or to the parent's other keys.  (Names of subcharts unique,
+   none called "global".) *)
+Theorem C11_scope : forall merge c dest dest' r r' d,
+  In d (cdeps c) -> NoDup (map cname (cdeps c)) -> ~ In global_key (map cname (cdeps c)) ->
+  mget (cname d) dest = mget (cname d) dest' ->
+  mget global_key dest = mget global_key dest' ->
+  coalesce merge c dest = Ok r -> coalesce merge c dest' = Ok r' ->
+  mget (cname d) r = mget (cname d) r'.
+Proof. exact scope_level. Qed.
+Print Assumptions C11_scope.
+
+(* ... and it is exactly: the subchart's defaults coalesced under (its section with the
+   parent's globals pushed in). *)
+Theorem C11_scope_value : forall merge c dest r d,
+  coalesce merge c dest = Ok r -> In d (cdeps c) ->
+  NoDup (map cname (cdeps c)) -> ~ In global_key (map cname (cdeps c)) ->
+  let dest1 := coalesce_values merge (map cname (cdeps c)) (cvalues c) dest in
+  exists dv x, section_of (cname d) dest1 = Some dv
+               /\ coalesce merge d (coalesce_globals dv dest1) = Ok x
+               /\ mget (cname d) r = Some (VMap x).
+Proof. exact scope_value. Qed.
+Print Assumptions C11_scope_value.
+
+(* C11_global_flow, upward half: whatever a subchart's section holds (its "global" included),
+   the parent's "global" and every key that is not a subchart's name depend only on the same
+   key of the values handed down. *)
+Theorem C11_global_not_upward : forall merge c dest dest' r r' k,
+  ~ In k (map cname (cdeps c)) ->
+  mget k dest = mget k dest' ->
+  coalesce merge c dest = Ok r -> coalesce merge c dest' = Ok r' ->
+  mget k r = mget k r'.
+Proof. exact section_confined. Qed.
+Print Assumptions C11_global_not_upward.
+
+(* C11_global_flow, downward half: a plain (non-table, non-null) value x under global.g in the
+   values a chart works with reaches the .Values of each subchart d and wins there, whatever
+   d's own defaults say - provided d's section does not hold a table at global.g and its
+   "global", if present, is a table (the code skips globals otherwise).  The conclusion is
+   the premise again one level down, so it carries to every descendant. *)
+Theorem C11_global_flow_down : forall merge c dest r d g x sg,
+  coalesce merge c dest = Ok r -> In d (cdeps c) ->
+  NoDup (map cname (cdeps c)) -> ~ In global_key (map cname (cdeps c)) ->
+  ~ In global_key (map cname (cdeps d)) ->
+  let dest1 := coalesce_values merge (map cname (cdeps c)) (cvalues c) dest in
+  mget global_key dest1 = Some (VMap sg) -> NoDup (map fst sg) -> mget g sg = Some x ->
+  (is_table x = false /\ is_null x = false) ->
+  (forall dv, section_of (cname d) dest1 = Some dv ->
+     mget global_key dv = None
+     \/ exists dg, mget global_key dv = Some (VMap dg) /\ forall t, mget g dg <> Some (VMap t)) ->
+  exists xv, mget (cname d) r = Some (VMap xv)
+             /\ exists gm, mget global_key xv = Some (VMap gm) /\ mget g gm = Some x.
+Proof. exact global_flow_down. Qed.
+Print Assumptions C11_global_flow_down.
+
+(* the child's own coalescing keeps such a global, so the premise holds again for its subcharts *)
+Theorem C11_global_kept_by_defaults : forall merge kids defaults v g x,
+  (exists gm, mget global_key v = Some (VMap gm) /\ mget g gm = Some x) ->
+  (is_table x = false /\ is_null x = false) ->
+  exists gm, mget global_key (coalesce_values merge kids defaults v) = Some (VMap gm) /\ mget g gm = Some x.
+Proof. exact coalesce_values_keeps_global. Qed.
+Print Assumptions C11_global_kept_by_defaults.
+
+(* Non-vacuity of the scope / global-flow hypotheses: two subcharts, a global set by the user,
+   a different one in suba's defaults; suba sees the user's, subb is untouched by suba's section. *)
+Example C11_scope_example :
+  let suba := Chart "suba" "1.0.0" [("global", VMap [("g", VNum 1)]); ("k", VNum 1)] None [] None [] false in
+  let subb := Chart "subb" "1.0.0" [("k", VNum 2)] None [] None [] false in
+  let top := Chart "top" "1.0.0" [] None [suba; subb] None [] false in
+  let v := [("global", VMap [("g", VNum 7)]); ("suba", VMap [("zz", VNum 1)])] in
+  let v' := [("global", VMap [("g", VNum 7)]); ("suba", VMap [("zz", VNum 2); ("global", VMap [("h", VNum 3)])])] in
+  match coalesce false top v, coalesce false top v' with
+  | Ok r, Ok r' =>
+      lookup_path ["suba"; "global"; "g"] (VMap r) = Some (VNum 7)
+      /\ mget "subb" r = mget "subb" r' /\ mget "global" r = mget "global" r'
+      /\ lookup_path ["suba"; "global"; "h"] (VMap r') = Some (VNum 3)
+      /\ lookup_path ["subb"; "global"; "h"] (VMap r') = None
+  | _, _ => False
+  end.
+Proof. exact scope_example. Qed.
+Print Assumptions C11_scope_example.
 
 (* Non-vacuity: a chart with two aliases of one subchart (unique names), one disabled by its
    condition in the user's values although its tag says true; the other kept by a tag. *)
